@@ -490,13 +490,13 @@ Lemma word_noteq W : hd_ok word W -> hd_ok noteq W.
 Proof. destruct W as [|x W]; [auto|]. cbn [hd_ok]. intros H. apply word_inv in H as [_ H]. unfold noteq. rewrite H. reflexivity. Qed.
 
 Lemma prefix_word_inv l t : prefix_word l t = true ->
-  kw_is t s_function = false /\ kw_is t s_const = false /\ kw_is t s_async = false /\
+  kw_is t s_function = false /\ kw_is t s_const = false /\
   kw_is t kw_new = false /\ kw_is t kw_record = false /\ word t = true.
 Proof.
   unfold prefix_word. intros H.
-  apply andb_prop in H as [H H5]. apply andb_prop in H as [H H4]. apply andb_prop in H as [H H3].
+  apply andb_prop in H as [H H5]. apply andb_prop in H as [H H4].
   apply andb_prop in H as [H H2]. apply andb_prop in H as [H0 H1].
-  apply negb_true_iff in H1, H2, H3, H4, H5.
+  apply negb_true_iff in H1, H2, H4, H5.
   unfold prefix_tok in H0. apply andb_prop in H0 as [H0 _]. unfold word. auto 10.
 Qed.
 
